@@ -29,7 +29,8 @@ struct Plan {
     uint64_t lat_lo = 20000, lat_hi = 200000, cost_lo = 200, cost_hi = 3000, tend = 100000000ULL, quiet_t = 0, drain = 60000000ULL;
     size_t qcap = 64, cantxq = 0, lstack = 0;  // lstack: stack of the listener limited to this many KiB (0 = the full 512)
     int64_t skew[4] = {0, 0, 0, 0};
-    bool stdin_eof = false, o0 = false, ethpad = false;
+    bool stdin_eof = false, o0 = false, ethpad = false, argorder = false;
+    int stackfill = 0xA5;  // byte the task stacks are pre-filled with (what a never-written local reads)
     double read0 = 0;
     uint64_t clkgran = 1;
     std::vector<CanW> can;
